@@ -2,17 +2,20 @@
    an arriving or waiting entry is 'D' iff `blocked` (some OLDER instruction has not, before this cycle,
    performed a conflicting access to a register this unit locks for it), else 'U'.  Hence never waiting
    on itself, never 'D' in a unit without locks. *)
+(* Guard on programs: wf_progb = the sources of every instruction are duplicate-free, which is what
+   program_defs.HwInstruction's converter guarantees; without it the model itself breaks the property
+   (proofs/C02_counterexample.v). *)
 From PS Require Import Base Bag RegAccess Sim Diag C02_proof.
 
 Theorem C02_exact :
   forall (P : proc) (prog : list instr) (fuel : nat) (tg : dtag) (d : diagram),
-    wf_procb P = true -> sim_result fuel P prog tg d ->
+    wf_procb P = true -> wf_progb prog = true -> sim_result fuel P prog tg d ->
     forall t u e, t < length d -> In e (occ d t u) -> C02_entry_ok P prog d t u e = true.
 Proof. exact C02_exact_lemma. Qed.
 Print Assumptions C02_exact.
 
 Theorem C02_checker_accepts :
   forall (P : proc) (prog : list instr) (fuel : nat) (tg : dtag) (d : diagram),
-    wf_procb P = true -> sim_result fuel P prog tg d -> C02_checkb P prog d = true.
+    wf_procb P = true -> wf_progb prog = true -> sim_result fuel P prog tg d -> C02_checkb P prog d = true.
 Proof. exact C02_checker_accepts_lemma. Qed.
 Print Assumptions C02_checker_accepts.
